@@ -122,6 +122,14 @@ def _resp_var(send) -> str | None:
     return None
 
 
+def _parses(c: str) -> bool:
+    try:
+        ast.parse(c, mode="eval")
+        return True
+    except SyntaxError:
+        return False
+
+
 def rule_err(ctx: Ctx) -> RuleReport:
     rep = RuleReport("C18-ERR", "fallible calls on the request path are converted into the client's own error family")
     fam = _family(ctx)
@@ -190,6 +198,25 @@ def rule_err(ctx: Ctx) -> RuleReport:
                     rep.fail(Finding("C18-ERR", CL, fi.qual, "request error converted to " + str(raised_class(conv[0])), f"{name} catches SharePointRequestError and raises {raised_class(conv[0])} instead: the caller no longer gets the request error with the HTTP status and the URL of the failed request", line=conv[0].lineno))
                 else:
                     rep.ok({"handler": f"{fi.qual}: except SharePointRequestError", "keeps_class": True})
+    # a request error is absorbed (turned into "nothing there") only for HTTP 404
+    for name, fi in methods.items():
+        for t in [n for n in walk_own(fi.node) if isinstance(n, ast.Try)]:
+            for h in t.handlers:
+                if not (set(_hnames(h)) & (fam | {"Exception", "BaseException"})) or not h.name:
+                    continue
+                for r in [x for st in h.body for x in ast.walk(st) if isinstance(x, (ast.Return, ast.Continue, ast.Pass))]:
+                    if isinstance(r, ast.Pass) and len(h.body) > 1:
+                        continue
+                    conds, opaque, _ = path_conditions(fi.node, r, terminals=("continue", "return", "break", "raise"))
+                    cs = {x for x in ({str(c) for c in conds} | set(opaque)) if not x.startswith("except ")}
+                    want = f"{h.name}.status_code == 404"
+                    if cs == {want}:
+                        rep.ok({"absorbed": f"{fi.qual}: {want}"})
+                    elif name in ("_send",):
+                        continue
+                    else:
+                        rep.fail(Finding("C18-ERR", CL, fi.qual, "request error absorbed when " + (" and ".join(sorted(anorm(ast.parse(c, mode='eval').body, fi.node) if _parses(c) else c for c in cs)) or "always"),
+                                         f"{name} swallows the client's error and goes on (`{short(r, 30)}`) under `{' and '.join(sorted(cs)) or 'no condition'}`; only HTTP 404 means 'nothing there' — a 401 / 403 / 429 must fail the call instead of producing an empty listing", line=r.lineno))
     # HTTP status of the HTTPError path
     for t in [n for n in walk_own(send.node) if isinstance(n, ast.Try)]:
         for h in t.handlers:
@@ -513,6 +540,27 @@ def rule_part(ctx: Ctx) -> RuleReport:
             yield from self._walk_drive_items(site_id, folder_id, drive_id=drive_id, parent_path=new_parent_path)
 '''
     _walk_necessary(ctx, rep, wk)
+    # a listing restricted to a folder reports files under the path the caller asked for (the folder item's own `name` is only its
+    # last component)
+    wf = methods.get("_walk_and_filter")
+    if wf is None:
+        raise AnalysisError("C18-PART: _walk_and_filter vanished")
+    wc = [c for c in calls_in(wf) if (dotted(c.func) or "") == "self._walk_drive_items"]
+    if len(wc) != 1:
+        raise AnalysisError("C18-PART: _walk_and_filter no longer starts exactly one walk")
+    pp = next((k.value for k in wc[0].keywords if k.arg == "parent_path"), None)
+    srcs = []
+    if isinstance(pp, ast.Name):
+        srcs = [a.value for a in walk_own(wf.node) if isinstance(a, ast.Assign) and any(isinstance(t, ast.Name) and t.id == pp.id for t in a.targets)]
+    elif pp is not None:
+        srcs = [pp]
+    wparams = {a.arg for a in wf.node.args.args + wf.node.args.kwonlyargs}
+    bad = [v for v in srcs if not (isinstance(v, ast.Constant) and v.value == "") and (any(isinstance(x, ast.Call) and isinstance(x.func, ast.Attribute) and x.func.attr == "get" for x in ast.walk(v)) or not ({x.id for x in ast.walk(v) if isinstance(x, ast.Name)} & wparams))]
+    if srcs and not bad:
+        rep.ok({"_walk_and_filter": "parent path = the requested folder path"})
+    else:
+        w = bad[0] if bad else wc[0]
+        rep.fail(Finding("C18-PART", CL, wf.qual, "parent path from " + anorm(w, wf.node), f"the parent path of a folder-restricted listing is `{short(w, 60)}`, not the requested folder path: for a nested folder such as Reports/2024 the files are reported under '2024', their full paths are wrong and path patterns no longer match", line=getattr(w, "lineno", wf.node.lineno)))
     r = compare_function(wk.node, tmpl)
     if r == "equal":
         rep.ok({"_walk_drive_items": "all files of the folder, then every sub-folder with an id, parent path = parent/name"})
